@@ -31,6 +31,12 @@ wrong cookies of those lengths in three states (ch-retx); NewSessionTicket of an
 second or third connection on the same sslSessionId_t, server keys and session cache (resumption by ticket, ticket
 renewal after the server rotated its ticket key, resumption with the renewed ticket, resumption by id, TLS 1.3 PSK);
 the earlier connections run to completion in the harness first and everything is deleted at the end (LeakSanitizer).
+ext-matrix (always-run): every extension-bearing message (ClientHello incl. the one after a HelloRetryRequest and the PSK
+one, ServerHello, HelloRetryRequest, EncryptedExtensions, CertificateRequest, both Certificate messages (last entry),
+NewSessionTicket, TLS 1.2 hellos) x every extension type that is a `case` label of the tree's extension parsers (read from
+the source on every run, + unknown types) x {absent, empty, plausible bodies, body of another extension, duplicated,
+last, first}: the recognised-but-forbidden cells of RFC 8446 4.2 in particular; sealed for the null-cipher receiver,
+then session deletion under LeakSanitizer.
 evidence: always_run_classes / sampled_classes give "run/generated" per class.
 The message / extension parsers behind the modelled framing are explored only (EXPLORED_ONLY)."""
 import json, os, re, subprocess, sys, time
@@ -42,9 +48,13 @@ WRAPS = ["psGetBrokenDownGMTime", "psGetEntropy", "psGetPrngLocked", "psGetTime"
 
 CFGS = ["t11", "t12", "t12cbc", "t12rsa", "t12ca", "t12ec", "t13", "t13ca", "t13cha", "d12", "d12ca", "d12cbc", "d12f", "d10",
         # later connections on the same sslSessionId_t / server keys / session cache (h_wire.c CFGS: ticket, conn)
-        "t12tk", "t12tk2", "t12tkrot", "t12tk3", "t12rid", "t13tk", "t13tk2", "d12rid"]
+        "t12tk", "t12tk2", "t12tkrot", "t12tk3", "t12rid", "t13tk", "t13tk2", "d12rid", "t13hrr"]
 DTLS = {"d12", "d12ca", "d12cbc", "d12f", "d10", "d12rid"}
 MULTI_CONN = {"t12tk2": 2, "t12tkrot": 2, "t12tk3": 3, "t12rid": 2, "t13tk2": 2, "d12rid": 2}     # which connection the transcript is
+REDUCED = set(MULTI_CONN) | {"t12tk", "t13tk", "t13hrr"}     # configurations explored for their special messages: reduced sampling of the generic classes
+# ext-matrix: the configuration that delivers the full grid for a handshake message (type, TLS 1.3?); the others get a sample
+EXT_GRID = {("t13ca", 1), ("t13ca", 2), ("t13ca", 8), ("t13ca", 13), ("t13ca", 11), ("t13tk", 4), ("t13hrr", 2), ("t13hrr", 1), ("t13tk2", 1), ("t13tk2", 2),
+            ("t12", 1), ("t12", 2)}
 HVR_FULL_GRID = {"d12", "d10"}          # every ordered pair of cookie lengths; the other DTLS configurations get a sample
 MACSZ = {"t11": 20, "t12cbc": 32, "t12rsa": 32, "d12cbc": 32, "d10": 20}
 
@@ -65,7 +75,7 @@ EXPLORED_ONLY = [
 ]
 
 
-DIRECTED_CLASSES = ("hvr-seq", "hvr-again", "ch-retx", "nst-len", "nst-reuse")     # message-sequence / multi-connection scenarios (directed())
+DIRECTED_CLASSES = ("hvr-seq", "hvr-again", "ch-retx", "nst-len", "nst-reuse", "ext-matrix")     # message-sequence / multi-connection scenarios (directed())
 ALWAYS_CLASSES = ("tail-over-split", "ext-last-split") + DIRECTED_CLASSES      # never sampled away: every (overclaim, nesting level) of every handshake message
 RESEND_CLASSES = ("dup-newseq", "dup-newseq-timeout", "timeout", "resend-prev", "resend-prev-timeout")
 
@@ -451,6 +461,133 @@ def mutations(cfg, units, k, r):
         # extension-ish: 16-bit lengths near the end of hello messages are covered by `lenfield`
 
 
+# ------------------------------------------------------------------ extension types the library knows (read from the tree that is checked)
+EXT_FALLBACK = {0: "SERVER_NAME", 1: "MAX_FRAGMENT_LEN", 3: "TRUSTED_CA_KEYS", 4: "TRUNCATED_HMAC", 5: "STATUS_REQUEST", 10: "SUPPORTED_GROUPS",
+                11: "ELLIPTIC_POINTS", 13: "SIGNATURE_ALGORITHMS", 16: "ALPN", 18: "SIGNED_CERTIFICATE_TIMESTAMP", 23: "EXTENDED_MASTER_SECRET",
+                35: "SESSION_TICKET", 40: "KEY_SHARE_PRE_DRAFT_23", 41: "PRE_SHARED_KEY", 42: "EARLY_DATA", 43: "SUPPORTED_VERSIONS", 44: "COOKIE",
+                45: "PSK_KEY_EXCHANGE_MODES", 47: "CERTIFICATE_AUTHORITIES", 48: "OID_FILTERS", 49: "POST_HANDSHAKE_AUTH",
+                50: "SIGNATURE_ALGORITHMS_CERT", 51: "KEY_SHARE", 0xFF01: "RENEGOTIATION_INFO"}
+EXT_UNKNOWN = (2, 0x0A0A, 0x1234, 0xFFFF)           # not known to the library (one GREASE value)
+EXT_TYPES = dict(EXT_FALLBACK)
+
+
+def known_ext_types(R):
+    """{number: name} of every EXT_* constant that is a `case` label in the extension parsers of the tree under R"""
+    try:
+        defs = {}
+        for m in re.finditer(r"#\s*define\s+EXT_(\w+)\s+(0[xX][0-9a-fA-F]+|\d+)\b", open(os.path.join(R, "matrixssl/matrixsslApiExt.h")).read()):
+            defs[m.group(1)] = int(m.group(2), 0)
+        out = {}
+        for f in ("tls13DecodeExt.c", "tls13Decode.c", "extDecode.c"):
+            for m in re.finditer(r"\bcase\s+EXT_(\w+)\s*:", open(os.path.join(R, "matrixssl", f)).read()):
+                if m.group(1) in defs: out.setdefault(defs[m.group(1)], m.group(1))
+        return out if len(out) >= 10 else None
+    except OSError:
+        return None
+
+
+# a few plausible bodies per type (the first one is "the minimal valid body" in at least one message that may carry the type)
+EXT_BODIES = {
+    0: [b"", bytes.fromhex("0005000002") + b"ab"], 1: [b"\x01"], 3: [bytes(2)], 4: [b""], 5: [bytes.fromhex("0100000000"), b""],
+    10: [bytes.fromhex("00020017")], 11: [bytes.fromhex("0100")], 13: [bytes.fromhex("00020804")], 16: [bytes.fromhex("0003026832")],
+    18: [b"", bytes(2)], 23: [b""], 35: [b"", b"ticket"], 40: [bytes.fromhex("0017"), bytes(2)],
+    41: [bytes(2), bytes.fromhex("0008000261620000000000212000") + bytes(31)], 42: [b"", bytes.fromhex("00004000")],
+    43: [bytes.fromhex("0304"), bytes.fromhex("020304")], 44: [bytes.fromhex("00026162")], 45: [bytes.fromhex("0101")],
+    47: [bytes.fromhex("000300013000")[:5]], 48: [bytes(2)], 49: [b""], 50: [bytes.fromhex("00020804")],
+    51: [bytes.fromhex("0017"), bytes(2), bytes.fromhex("00170001") + b"\x04"], 0xFF01: [b"\x00"],
+}
+
+
+def ext_locate(cfg, t, body):
+    """(offset of the 2-byte extension list length or len(body) when the list is absent, [(type, data)]) for the handshake
+    messages that carry extensions, by walking the message; None when the message has no extension list / does not parse.
+    TLS 1.3 Certificate: the list of the LAST CertificateEntry."""
+    t13 = cfg.startswith("t13"); d = cfg in DTLS
+    try:
+        if t == 1:
+            o = 34; o += 1 + body[o]
+            if d: o += 1 + body[o]
+            o += 2 + int.from_bytes(body[o:o + 2], "big"); o += 1 + body[o]
+        elif t == 2:
+            o = 34; o += 1 + body[o]; o += 3
+        elif t == 8 and t13: o = 0
+        elif t == 13 and t13: o = 1 + body[0]
+        elif t == 4 and t13:
+            o = 8; o += 1 + body[o]; o += 2 + int.from_bytes(body[o:o + 2], "big")
+        elif t == 11 and t13:
+            o = 1 + body[0]; L = int.from_bytes(body[o:o + 3], "big"); o += 3; end = o + L; last = None
+            while o + 3 <= end:
+                cl = int.from_bytes(body[o:o + 3], "big"); o += 3 + cl; last = o
+                o += 2 + int.from_bytes(body[o:o + 2], "big")
+            if last is None or o != len(body): return None
+            o = last
+        else:
+            return None
+        if o > len(body): return None
+        if o == len(body): return (o, [])
+        L = int.from_bytes(body[o:o + 2], "big")
+        if o + 2 + L != len(body): return None
+        p, exts = o + 2, []
+        while p + 4 <= len(body):
+            et = int.from_bytes(body[p:p + 2], "big"); l = int.from_bytes(body[p + 2:p + 4], "big")
+            if p + 4 + l > len(body): return None
+            exts.append((et, body[p + 4:p + 4 + l])); p += 4 + l
+        return (o, exts) if p == len(body) else None
+    except IndexError:
+        return None
+
+
+def ext_rebuild(cfg, t, body, o, exts):
+    nb = put_exts(body, o, exts)
+    if t == 11 and cfg.startswith("t13"):
+        # the enclosing certificate_list<0..2^24-1> grows / shrinks with the last entry's extensions
+        lo = 1 + body[0]
+        nb = nb[:lo] + (len(nb) - lo - 3).to_bytes(3, "big") + nb[lo + 3:]
+    return nb
+
+
+def ext_matrix(cfg, u, r, content, msgs, nf):
+    """every extension-bearing message x every extension type the library knows (+ unknown ones) x {absent, empty, plausible
+    bodies, body of another extension, duplicated, last, first}: in particular the recognised-but-forbidden cells"""
+    d = cfg in DTLS
+    for (t, Lh, msn, off, fl, body, s_, e_) in msgs[:2]:
+        if d and not (off == 0 and fl == Lh): continue
+        loc = ext_locate(cfg, t, body)
+        if not loc: continue
+        o, exts = loc
+        pre, post = content[:s_], content[e_:]
+        grid = (cfg, t) in EXT_GRID
+        have = dict(exts)
+        others = [x for x in exts if x[1]]
+        def out(var, new_exts):
+            nb = ext_rebuild(cfg, t, body, o, new_exts)
+            M = hs_hdr(cfg, t, len(nb), msn, 0, len(nb) if d else None) + nb
+            if len(pre + M + post) > 16000: return None
+            return ("ext-matrix#%d.%s" % (t, var) if grid else "ext-matrix-more", "e" + nf, [u.rec(pre + M + post)])
+        for et in sorted(EXT_TYPES) + list(EXT_UNKNOWN):
+            rest = [x for x in exts if x[0] != et]
+            bodies = EXT_BODIES.get(et, [b"", b"\x00\x01\x02\x03"])
+            cur = have.get(et)
+            vs = []
+            if cur is not None: vs.append(("absent", rest))
+            vs.append(("empty", rest + [(et, b"")]))
+            for j, b in enumerate(bodies): vs.append(("body%d" % j, rest + [(et, b)]))
+            ob = r.choice([x for x in others if x[0] != et] or [(0, b"\x00")])[1]
+            vs.append(("other", rest + [(et, ob)]))
+            b0 = cur if cur is not None else bodies[0]
+            vs.append(("dup", rest + [(et, b0), (et, b0)]) if r.randrange(2) else ("dup", [(et, b0)] + rest + [(et, b0)]))
+            if cur is not None: vs.append(("last", rest + [(et, b0)]))      # (a type that is not there: body0 already comes last)
+            vs.append(("first", [(et, b0)] + rest))
+            for var, ne in vs:
+                c = out("%d.%s" % (et, var), ne)
+                if c: yield c
+        # no extension list at all / an empty one
+        for var, nb in (("nolist", body[:o]), ("emptylist", body[:o] + bytes(2))):
+            if t == 11 and cfg.startswith("t13"): continue
+            M = hs_hdr(cfg, t, len(nb), msn, 0, len(nb) if d else None) + nb
+            yield ("ext-matrix#%d.%s" % (t, var) if grid else "ext-matrix-more", "e" + nf, [u.rec(pre + M + post)])
+
+
 COOKIE_LENS = (0, 1, 16, 32, 255)
 
 
@@ -546,6 +683,7 @@ def directed(cfg, units, k, r):
             for var, sq in seqs:
                 if any(x is None for x in sq): continue
                 yield ("ch-retx#%d.%s" % (k, var) if full else "ch-retx-more", "eo", sq + rest)
+    if msgs: yield from ext_matrix(cfg, u, r, content, msgs, nf)
     # ---- NewSessionTicket of any length / lifetime (first ticket, renewal for a session id that already holds one)
     for (t, Lh, msn, off, fl, body, s_, e_) in msgs[:2]:
         if t != 4 or u.to != "c" or d: continue
@@ -647,7 +785,7 @@ def build_cases(caps, rng, per_state, classes_seen):
                 byc.setdefault(cl, []).append((cl, fl, chunks, var))
             # configurations added for their later connections share most of their states' code with the single-connection
             # ones: there only the directed classes are always-run and the sampled classes get half of the budget in total
-            reduced = cfg in MULTI_CONN or cfg in ("t12tk", "t13tk")
+            reduced = cfg in REDUCED
             pick, singles = [], []
             for cl in sorted(byc):
                 GENERATED[cl] = GENERATED.get(cl, 0) + len(byc[cl])
@@ -1219,6 +1357,12 @@ def is_finding_free(impl_line):
 
 # ------------------------------------------------------------------ the check
 def explore(ck, h, quick_per_state, thorough_per_state):
+    kt = known_ext_types(ck.build_repo("plain"))
+    if kt:
+        EXT_TYPES.clear(); EXT_TYPES.update(kt)
+    ck.log("extension types known to the tree: %s%s" % (" ".join("%d" % x for x in sorted(EXT_TYPES)), "" if kt else "  (FALLBACK table: source not parsed)"))
+    ck.obligation("harness:extension_types_read_from_source", bool(kt), detail="" if kt else "matrixsslApiExt.h / *DecodeExt.c not parsed")
+    ck.cov["extension_types"] = {str(k): v for k, v in sorted(EXT_TYPES.items())}
     caps = capture(h, CFGS, env=BASE_PAINT[1])
     bad = [c for c in CFGS if caps.get(c, (None,))[0] is None]
     for c in CFGS:
